@@ -251,6 +251,94 @@ def search(seed, tier):
     return found
 
 
+def runtime_checks():
+    """exact observations on the real code that a symbolic trace cannot carry (every run):
+    * "their results remain differentiable so operators can be composed": fields with constant or vanishing partials
+      (position vector, rigid rotation, uniform strain, shear, affine scalars) through every composition;
+    * batches in which EVERY row sits at a special point (critical point, symmetry plane): the value at a point does not
+      depend on what the other rows of the batch are;
+    * the operators give the same values when called inside torch.no_grad() on a field built with grad enabled."""
+    import torch
+    from neurodiffeq import operators as ops
+    bad = []
+    col = lambda *v: torch.tensor([[float(a)] for a in v], requires_grad=True)
+
+    def zero(t, what, ctx):
+        if t is None or not torch.is_tensor(t) or t.shape != (3, 1) or float(t.detach().abs().max()) != 0.0:
+            bad.append(dict(ctx, violated=f'{what} is not identically zero', got=None if t is None else t.detach().reshape(-1).tolist()))
+
+    fields = {
+        'position vector (x, y, z)': lambda x, y, z: (x, y, z),
+        'rigid rotation (-y, x, 0)': lambda x, y, z: (-y, x, z * 0),
+        'uniform strain (2x, -y, 3z)': lambda x, y, z: (2 * x, -y, 3 * z),
+        'shear (y, 0, 0)': lambda x, y, z: (y + 0 * x, 0 * y, 0 * z),
+        'constant (1, 2, 3)': lambda x, y, z: (x * 0 + 1, y * 0 + 2, z * 0 + 3),
+    }
+    for name, F in fields.items():
+        ctx = dict(case='composition on a field with constant partial derivatives', field=name)
+        try:
+            x, y, z = col(0.3, -1.2, 2.0), col(1.1, 0.4, -0.7), col(-0.5, 0.9, 1.6)
+            d = ops.div(*F(x, y, z), x, y, z)
+            for i, gi in enumerate(ops.grad(d, x, y, z)):
+                zero(gi, f'grad(div F)[{i}]', ctx)
+            zero(ops.laplacian(d, x, y, z), 'laplacian(div F)', ctx)
+            for i, ci in enumerate(ops.curl(*ops.curl(*F(x, y, z), x, y, z), x, y, z)):
+                zero(ci, f'curl(curl F)[{i}]', ctx)
+            for i, vi in enumerate(ops.vector_laplacian(*F(x, y, z), x, y, z)):
+                zero(vi, f'vector_laplacian(F)[{i}]', ctx)
+                for j, gj in enumerate(ops.grad(vi, x, y, z)):
+                    zero(gj, f'grad(vector_laplacian(F)[{i}])[{j}]', ctx)
+            zero(ops.div(*ops.curl(*F(x, y, z), x, y, z), x, y, z), 'div(curl F)', ctx)
+            # back-propagation through the result must work (zeros are fine, exceptions are not)
+            (d.sum() + sum(c.sum() for c in ops.curl(*F(x, y, z), x, y, z))).backward()
+        except Exception as e:
+            bad.append(dict(ctx, violated='operators cannot be composed / back-propagated on this field', error=f'{type(e).__name__}: {e}'))
+    try:
+        x, y = col(0.3, -1.2, 2.0), col(1.1, 0.4, -0.7)
+        u = 2 * x - y + 3
+        ctx = dict(case='affine scalar field 2x - y + 3')
+        zero(ops.laplacian(u, x, y), 'laplacian(u)', ctx)
+        zero(ops.div(*ops.grad(u, x, y), x, y), 'div(grad u)', ctx)
+        for i, gi in enumerate(ops.grad(u, x, y)):
+            for j, gij in enumerate(ops.grad(gi, x, y)):
+                zero(gij, f'grad(grad(u)[{i}])[{j}]', ctx)
+    except Exception as e:
+        bad.append(dict(case='affine scalar field', violated='operators cannot be composed', error=f'{type(e).__name__}: {e}'))
+    # every row at a critical point / on a symmetry plane
+    specials = [('x^2 + 3y^2 - z^2 at the origin (all rows)', lambda x, y, z: x ** 2 + 3 * y ** 2 - z ** 2, (0., 0., 0.), 6.0),
+                ('cos(x) + y^2 z on the plane x = 0, z = 0', lambda x, y, z: torch.cos(x) + y ** 2 * z, (0., 0.7, 0.), -1.0),
+                ('(x - 1)^2 (y + 2) at x = 1', lambda x, y, z: (x - 1) ** 2 * (y + 2) + 0 * z, (1., 0.5, -0.3), 5.0)]
+    for name, f, p, want in specials:
+        try:
+            x, y, z = col(p[0], p[0], p[0]), col(p[1], p[1], p[1]), col(p[2], p[2], p[2])
+            lap = ops.laplacian(f(x, y, z), x, y, z).detach().reshape(-1).tolist()
+            if any(abs(v - want) > 1e-12 for v in lap):
+                bad.append(dict(case='batch in which every row is the same special point', field=name, violated='laplacian', got=lap, want=want))
+            vl = ops.vector_laplacian(f(x, y, z), f(x, y, z) * 2, f(x, y, z) * -1, x, y, z)
+            if any(abs(v - k * want) > 1e-12 for comp, k in zip(vl, (1, 2, -1)) for v in comp.detach().reshape(-1).tolist()):
+                bad.append(dict(case='batch in which every row is the same special point', field=name, violated='vector_laplacian', want=want))
+        except Exception as e:
+            bad.append(dict(case='special-point batch', field=name, error=f'{type(e).__name__}: {e}'))
+    # grad mode: same values inside torch.no_grad()
+    try:
+        x, y, z = col(0.3, -1.2, 2.0), col(1.1, 0.4, -0.7), col(-0.5, 0.9, 1.6)
+        u = torch.sin(x * y) + z ** 3 * x
+        v, w = u * y, z * u
+        ref = [ops.laplacian(u, x, y, z)] + list(ops.grad(u, x, y, z)) + [ops.div(*ops.grad(u, x, y, z), x, y, z)] \
+            + list(ops.vector_laplacian(u, v, w, x, y, z))
+        with torch.no_grad():
+            got = [ops.laplacian(u, x, y, z)] + list(ops.grad(u, x, y, z)) + [ops.div(*ops.grad(u, x, y, z), x, y, z)] \
+                + list(ops.vector_laplacian(u, v, w, x, y, z))
+        names = ['laplacian', 'grad[0]', 'grad[1]', 'grad[2]', 'div(grad)', 'vector_laplacian[0]', 'vector_laplacian[1]', 'vector_laplacian[2]']
+        for nm, a, b in zip(names, got, ref):
+            if not torch.allclose(a.detach(), b.detach(), rtol=0, atol=1e-12):
+                bad.append(dict(case='operators called inside torch.no_grad() on a field built with grad enabled', op=nm,
+                                got=a.detach().reshape(-1).tolist(), want=b.detach().reshape(-1).tolist()))
+    except Exception as e:
+        bad.append(dict(case='operators called inside torch.no_grad()', error=f'{type(e).__name__}: {e}'))
+    return bad
+
+
 def check(tier, seed):
     from ..calcprop import check_calc
     return check_calc(sys.modules[__name__], tier, seed)
